@@ -70,8 +70,10 @@ def _small_files(rnd, n, kind):
     out = []
     for i in range(n):
         ln = rnd.choice([1, 3, 200, 255, 256, 300, 2300])
-        f = dict(name="OLD%d" % i, ext="BIN", ftype=2, dtype=0, load=rnd.randrange(65536), exec=rnd.randrange(65536),
-                 data=bytes(rnd.randrange(256) for _ in range(ln)))
+        ftype, dtype = rnd.choice([(2, 0), (2, 0), (0, 0), (0, 0xFF), (1, 0xFF), (3, 0xFF), (3, 0)] if kind == "cas" else
+                                  [(2, 0), (2, 0), (0, 0), (0, 0xFF), (1, 0xFF)])
+        f = dict(name="OLD%d" % i, ext="BIN", ftype=ftype, dtype=dtype, load=rnd.randrange(65536) if ftype == 2 else 0,
+                 exec=rnd.randrange(65536) if ftype == 2 else 0, data=bytes(rnd.randrange(256) for _ in range(ln)))
         out.append(f)
     return out
 
